@@ -562,6 +562,8 @@ const EXTRA_VOCAB: [&str; 40] = [
 ];
 
 pub fn run_c09(args: &Args, tier: &str, seed: u64) -> Report {
+    let raw_ops: Vec<Operation> = (0..=0xffffu32).filter_map(|c| Operation::from_u16(c as u16)).collect();
+    let raw_ops = std::sync::Arc::new(raw_ops);
     let n: u64 = args.u64("--cases", tier_pick(tier, 6_000, 200_000));
     let trials: usize = args.u64("--trials", tier_pick(tier, 32, 256)) as usize;
     let only = args.get("--only").and_then(|s| s.parse::<u64>().ok());
@@ -642,7 +644,15 @@ pub fn run_c09(args: &Args, tier: &str, seed: u64) -> Report {
             );
             let op_names: HashSet<String> = adds.iter().filter(|a| a.0 == 1).map(|a| a.1.clone()).collect();
             let expect_job_uri = op_names.contains("job-uri");
-            let expect_job_id = has_printer_uri && (op_names.contains("job-id") || (base == 0 && matches!(p.op, 3 | 5 | 6)));
+            // "for job operations addressed by printer-uri plus job-id, job-id fourth": judged for job operations only (a job-id
+            // placed into the operation group of a printer operation or of a response has no mandated position)
+            const JOB_OPS: [u16; 12] = [0x0006, 0x0007, 0x0008, 0x0009, 0x000c, 0x000d, 0x000e, 0x0014, 0x002c, 0x002f, 0x400d, 0x400e];
+            let is_job_op = match base {
+                0 => matches!(p.op, 3 | 5 | 6),
+                2 => JOB_OPS.contains(&(raw_ops[idx as usize % raw_ops.len()] as u16)),
+                _ => false,
+            };
+            let expect_job_id = has_printer_uri && is_job_op && (op_names.contains("job-id") || base == 0);
             let mut tails: HashSet<u64> = HashSet::new();
             let mut tail_len = 0usize;
             for t in 0..trials {
@@ -650,12 +660,22 @@ pub fn run_c09(args: &Args, tier: &str, seed: u64) -> Report {
                 let res = catch(|| {
                     let mut req = match base {
                         0 => build(&p),
-                        1 => IppRequestResponse::new(IppVersion::v1_1(), Operation::GetJobAttributes, None),
-                        2 => IppRequestResponse::new(IppVersion::v1_1(), Operation::CancelJob, Some("ipp://u:p@host:631/p?q".parse().unwrap())),
+                        // raw requests over every operation the library has a symbol for (by case index)
+                        1 => IppRequestResponse::new(IppVersion::v1_1(), raw_ops[idx as usize % raw_ops.len()], None),
+                        2 => IppRequestResponse::new(IppVersion::v1_1(), raw_ops[idx as usize % raw_ops.len()], Some("ipp://u:p@host:631/p?q".parse().unwrap())),
                         _ => IppRequestResponse::new_response(IppVersion::v1_1(), StatusCode::SuccessfulOk, 9),
                     };
-                    for (g, name, v) in &adds {
+                    // every third case encodes the message before and in between the additions (the encoding must not depend on
+                    // the object's history: nothing remembered from an earlier to_bytes() may place a later addition)
+                    let interleave = idx % 3 == 1;
+                    if interleave {
+                        std::hint::black_box(req.to_bytes().len());
+                    }
+                    for (k, (g, name, v)) in adds.iter().enumerate() {
                         req.attributes_mut().add(mirror::delim(*g), IppAttribute::new(name, mirror::to_ipp_value(v)));
+                        if interleave && k % 2 == 0 {
+                            std::hint::black_box(req.to_bytes().len());
+                        }
                     }
                     if reorder {
                         let groups = req.attributes_mut().groups_mut();
@@ -732,7 +752,7 @@ pub fn run_c09(args: &Args, tier: &str, seed: u64) -> Report {
     for r in parts {
         rep.merge(r);
     }
-    rep.rule = format!("Every constructor/builder program of C10 (or a raw request with/without URI, or a response), followed by 0..6 further IppAttributes::add calls in shuffled order from a vocabulary containing job-id, job-uri, the three header attributes and ordinary attributes, rebuilt {trials} times with fresh maps (how many cases showed more than one order of the unconstrained attributes is reported as evidence, not demanded: a sorting encoder shows one); oracle: positions in the reference decoder's reading of to_bytes(): operation group first, attributes-charset 1st, attributes-natural-language 2nd, printer-uri (or job-uri when there is no printer-uri) 3rd, job-id 4th when printer-uri and job-id are both present. printer-uri together with job-uri is not generated (undefined by RFC 8011). evaluations = instances judged; distinct = by setup text.");
+    rep.rule = format!("Every constructor/builder program of C10 (or a raw request with/without URI, or a response), followed by 0..6 further IppAttributes::add calls in shuffled order from a vocabulary containing job-id, job-uri, the three header attributes and ordinary attributes, rebuilt {trials} times with fresh maps, every third case encoding the message before and between the additions, raw requests over every operation the library knows (how many cases showed more than one order of the unconstrained attributes is reported as evidence, not demanded: a sorting encoder shows one); oracle: positions in the reference decoder's reading of to_bytes(): operation group first, attributes-charset 1st, attributes-natural-language 2nd, printer-uri (or job-uri when there is no printer-uri) 3rd, job-id 4th when printer-uri and job-id are both present. printer-uri together with job-uri is not generated (undefined by RFC 8011). evaluations = instances judged; distinct = by setup text.");
     if only.is_none() {
         let e = rep.counters.get("cases_with_3plus_free_attributes").copied().unwrap_or(0);
         let m = rep.counters.get("cases_with_3plus_free_attributes_reordered").copied().unwrap_or(0);
